@@ -82,6 +82,17 @@ def mkUint (w : Nat) (args : List GoVal) : Option Tmpl :=
   | none => none
   | some xs => if validWidthInt w && slotsOk (uintInRange w) xs then some (.uint w xs) else none
 
+/-- a slot whose conversion itself refused the value -/
+def slotRefused {β} : Slot (Option β) → Bool
+  | .val none => true
+  | _ => false
+
+/-- the slot without the refusal marker (only used when no slot was refused) -/
+def slotUnwrap {β} (dflt : β) : Slot (Option β) → Slot β
+  | .val (some b) => .val b
+  | .val none => .val dflt
+  | .var n => .var n
+
 /-! ### float nodes: the node stores a float64; observable is the pattern in the item's width -/
 
 /-- value as a float64 pattern -/
@@ -106,8 +117,8 @@ def mkFloat (w : Nat) (args : List GoVal) : Option Tmpl :=
   | none => none
   | some xs =>
     -- a refused value (none inside) is a panic
-    if xs.any (fun s => match s with | .val none => true | _ => false) then none else
-    let ys : List (Slot Nat) := xs.map (fun s => match s with | .val (some b) => .val b | .val none => .val 0 | .var n => .var n)
+    if xs.any slotRefused then none else
+    let ys : List (Slot Nat) := xs.map (slotUnwrap 0)
     if slotsOk (fun _ => true) ys then some (.float w ys) else none
 
 /-! ### binary, boolean -/
@@ -128,8 +139,8 @@ def mkBinary (args : List GoVal) : Option Tmpl :=
   match mkSlots convBinary args with
   | none => none
   | some xs =>
-    if xs.any (fun s => match s with | .val none => true | _ => false) then none else
-    let ys : List (Slot Int) := xs.map (fun s => match s with | .val (some b) => .val b | .val none => .val 0 | .var n => .var n)
+    if xs.any slotRefused then none else
+    let ys : List (Slot Int) := xs.map (slotUnwrap 0)
     if slotsOk (fun (v : Int) => 0 ≤ v && v < 256) ys then
       some (.binary (ys.map (fun s => match s with | .val v => .val v.toNat | .var n => .var n)))
     else none
